@@ -275,6 +275,10 @@ func c19BuildOne(r *rand.Rand, kp *keys.Pair, observe bool) (*c19Shared, error) 
 		if perr != nil {
 			continue
 		}
+		// every shared pipeline also has a step whose plugins carry explicitly empty configs (mapping, list) next
+		// to an absent one: marshalling writes them all as null, the objects keep what they hold
+		p.Steps = append(p.Steps, &pipeline.CommandStep{Command: "with empty plugin configs", Plugins: pipeline.Plugins{
+			{Source: "ecr#v2.7.0", Config: map[string]any{}}, {Source: "cache#v1.0.0", Config: []any{}}, {Source: "docker#v5.0.0"}}})
 		s.pipe = p
 		break
 	}
@@ -308,11 +312,14 @@ func c19BuildOne(r *rand.Rand, kp *keys.Pair, observe bool) (*c19Shared, error) 
 	s.pub = kp.PubSet
 	s.signStep = &signature.CommandStepWithInvariants{
 		CommandStep: pipeline.CommandStep{Command: "make", Env: map[string]string{"A": "1", "B": "2"},
-			Plugins: pipeline.Plugins{{Source: "docker#v5", Config: map[string]any{"image": "alpine", "env": []any{"A", "B"}}}},
+			Plugins: pipeline.Plugins{{Source: "docker#v5", Config: map[string]any{"image": "alpine", "env": []any{"A", "B"}}}, {Source: "ecr#v2", Config: map[string]any{}}, {Source: "cache#v1", Config: []any{}}},
 			Matrix:  &pipeline.Matrix{Setup: pipeline.MatrixSetup{"os": {"linux", "mac"}}}},
 		RepositoryURL: "repo",
 	}
 	s.plugin = &pipeline.Plugin{Source: "docker-compose#v4.16.0", Config: map[string]any{"run": "app"}}
+	if r.IntN(2) == 0 {
+		s.plugin.Config = map[string]any{} // explicitly empty
+	}
 	if observe {
 		sig, err := signature.Sign(bg, kp.Signer, s.signStep, signature.WithEnv(s.penv))
 		if err != nil {
